@@ -91,6 +91,8 @@ type Server struct {
 	Dropped  int
 	// Echo answers raw (non liteServer.query) requests with tag|sha256(payload)|counter.
 	EchoCounter int
+	// DupNext, when non-zero, makes the next answer go out with this many extra copies. One-shot.
+	DupNext int
 	// LieOuterLen, when non-zero, makes the next adnl.message.answer declare this many answer bytes
 	// while carrying the real (shorter) ones. One-shot.
 	LieOuterLen int
@@ -329,9 +331,20 @@ func (s *Server) reply(c *core.Conn, qid []byte, answer []byte) {
 	s.Answered++
 	pkt := s.AnswerPacket(qid, answer)
 	s.Push(c, pkt, now+s.think(), "answer")
+	if s.DupNext > 0 {
+		for i := 0; i < s.DupNext; i++ {
+			s.W.Probe("answer-duplicated")
+			s.Push(c, pkt, now+s.think(), "dup")
+		}
+		s.DupNext = 0
+	}
 	if s.permille(s.Beh.DupPermille) {
-		s.W.Probe("answer-duplicated")
-		s.Push(c, pkt, now+s.think(), "dup")
+		// one to three extra copies: a reply channel with one slot absorbs the first surplus copy
+		extra := 1 + s.W.Ch.Choose(3)
+		for i := 0; i < extra; i++ {
+			s.W.Probe("answer-duplicated")
+			s.Push(c, pkt, now+s.think(), "dup")
+		}
 	}
 }
 
